@@ -529,3 +529,49 @@ def diagram_nonuniform_dims(ctx):
     ctx.ensure("matching-paired-axes:accepted-and-equal-to-einsum", _same_tensor(got, ref, (0, 0)), witness=dict(tensor=(4, 2, 3), got=_shape_of(got)))
     got = _safe(lambda: gb.TensorDiagram((T, b)).calculate())
     ctx.ensure("mismatching-paired-axes:TensorComputationError", isinstance(got, str) and got.startswith("TensorComputationError"), witness=dict(tensor=(4, 2, 3), edge="(T, b): first covariant axis has length 4, b has 2"))
+
+
+@case("C05", "diagram.copy.independent", [], mode="field", oracle=False, functions=["geometer.base.TensorDiagram.copy", "geometer.base.TensorDiagram.add_edge", "geometer.base.TensorDiagram.calculate"],
+      assumptions=["enumerated: 3 diagrams x every further edge / node added to the copy and, conversely, to the original"])
+def diagram_copy_independent(ctx):
+    """copy() yields an independent diagram: edges added to the copy do not change the original and vice versa"""
+    gb, TCE = _b()
+    A = gb.Tensor(np.arange(9).reshape(3, 3), covariant=[0])
+    B = gb.Tensor(np.arange(9).reshape(3, 3) + 2, covariant=[0])
+    v = gb.Tensor(np.array([1, 2, 3]), covariant=False)
+    w = gb.Tensor(np.array([4, -1, 2]), covariant=True)
+    bad = []
+
+    def build(kind):
+        d = gb.TensorDiagram()
+        if kind == "node":
+            d.add_node(A)
+        elif kind == "edge":
+            d.add_edge(A, B)
+        else:
+            d.add_node(A)
+            d.add_node(w)
+        return d
+
+    for kind in ("node", "edge", "two-nodes"):
+        for extra in ((A, v), (w, A)):
+            try:
+                probe = build(kind)
+                probe.add_edge(*extra)
+            except TCE:
+                continue  # the extra edge is not available in this diagram (index already used)
+            d = build(kind)
+            before = np.asarray(d.calculate().array).copy()
+            c = d.copy()
+            c.add_edge(*extra)
+            after = np.asarray(d.calculate().array)
+            ref = build(kind)
+            ref.add_edge(*extra)
+            if before.shape != after.shape or not np.array_equal(before, after) or not np.array_equal(np.asarray(c.calculate().array), np.asarray(ref.calculate().array)):
+                bad.append((kind, "copy+edge"))
+            d = build(kind)
+            c = d.copy()
+            d.add_edge(*extra)
+            if not np.array_equal(np.asarray(c.calculate().array), before):
+                bad.append((kind, "original+edge"))
+    ctx.ensure("copy-is-independent-of-the-original", not bad, bad=str(bad[:4]))
